@@ -89,6 +89,12 @@ CA_FRAME = [
     ("C07.flag_levels", f"forall(l, 0, H, implies(l != {TOP}, forall(p, 0, P, {NEs}[l, p] == {NE0}[l, p])))"),
     ("C07.flags_only_cleared", f"forall(p, 0, P, implies({NEs}[{TOP}, p], {NE0}[{TOP}, p]))"),
 ]
+CA_FRAME_IFACE = [
+    ("C08.top", "stacks_top[0] == old(stacks_top)[0]"),
+    ("C08.levels", f"forall(l, 0, {TOP}, lvl_same({SS}, {SS0}, l, D))"),
+    ("C07.flag_levels", f"forall(l, 0, {TOP}, forall(p, 0, P, {NEs}[l, p] == {NE0}[l, p]))"),
+    ("C07.flags_only_cleared", f"forall(p, 0, P, implies({NEs}[{TOP}, p], {NE0}[{TOP}, p]))"),
+]
 CA_SHRINK = ("C08.shrink", f"implies(result != PROBLEM_INCONSISTENT, forall(d, 0, D, {SS0}[{TOP}, d, MIN] <= {SS}[{TOP}, d, MIN] and {SS}[{TOP}, d, MIN] <= {SS}[{TOP}, d, MAX] and {SS}[{TOP}, d, MAX] <= {SS0}[{TOP}, d, MAX]))")
 CA_STATUS = ("C01.status", "result == PROBLEM_INCONSISTENT or result == PROBLEM_UNBOUND or result == PROBLEM_BOUND")
 CA_BOUND = ("C01.bound", f"implies(result == PROBLEM_BOUND, forall(d, 0, D, {SS}[{TOP}, d, MIN] == {SS}[{TOP}, d, MAX]))")
